@@ -36,7 +36,8 @@ def replay(ctx, path):
     r = json.load(open(path))["replay"]
     ctx.build()
     if r.get("case"):
-        f = os.path.join(ctx.scratch, "one.ndjson"); open(f, "w").write(json.dumps(r["case"]) + "\n")
+        f = os.path.join(ctx.scratch, "one.ndjson"); cs = r["case"] if isinstance(r["case"], list) else [r["case"]]      # a mixed-batch case carries its predecessor
+        open(f, "w").write("".join(json.dumps(c) + "\n" for c in cs))
         out = os.path.join(ctx.scratch, "one_res.ndjson")
         ctx.vh_ok(["c08-replay", f, out]); run_results(ctx, out, "replay")
     else:
